@@ -193,6 +193,12 @@ func (p *Prog) provWalk(v ssa.Value, fp *fieldProv, seen map[ssa.Value]bool, dep
 				}
 			}
 			fp.stack = fp.stack[:len(fp.stack)-1]
+			// the text handed to a repo helper feeds whatever the helper builds from it
+			for _, a := range x.Call.Args {
+				if isStringType(a.Type()) || isStringSlice(a.Type()) {
+					p.provWalk(a, fp, seen, depth+1)
+				}
+			}
 		case strings.HasPrefix(name, "(*regexp.Regexp)"):
 			fp.via[short] = true
 			if len(x.Call.Args) > 1 {
